@@ -97,9 +97,13 @@ Definition judge_C12 (k : scase) : N :=
   let same := classes_same k in
   let errs_same := list_eqb perr_eqb (g_def_errs k) (proj_out (m_default k)) &&
                    list_eqb perr_eqb (g_multi_errs k) (proj_out (m_multi k)) in
-  let gc := guard_class k in
+  (* the guards whose failure makes modes differ (a panic reached in one mode only) *)
+  let rc := lk_compiles (k_compiles k) in
+  let gc : N := if negb (g_excl (k_schema k)) then 2%N
+                else if negb (g_div (k_schema k) (k_value k)) then 5%N
+                else if negb (g_pattern rc (k_schema k)) then 6%N else 0%N in
   if rel then (if same && errs_same then J_OK else J_DRIFT)
-  else if same && (N.eqb gc 2 || N.eqb gc 5 || N.eqb gc 6) then J_KNOWN gc
+  else if same && negb (N.eqb gc 0) then J_KNOWN gc
   else J_VIOL.
 
 Definition judge_C19 (k : scase) : N :=
